@@ -34,6 +34,9 @@ def gen_spec(rnd):
     ws = [simgen.gen_watcher(rnd, 'a')]
     if rnd.random() < .35:
         ws.append(simgen.gen_watcher(rnd, 'b', np_choices=(1, 2)))
+    for w_ in ws:
+        if rnd.random() < .15:
+            w_['shell'] = True               # the command goes through /bin/sh -c
     names = [w['name'] for w in ws]
     if rnd.random() < .2:
         # a signal hook that vetoes (false) or fails: the stop signal is withheld, the worker lives through the
